@@ -211,9 +211,12 @@ KddConsistent ==
   Q > Len(KddIds) =>
   \A p \in KddPolys, S \in KddSets, d \in Zq :
      /\ KSum(p, S, d, 0) = Add(p[1], d)                                     \* the signers hold x + d
-     /\ \A pos \in 1..Len(S) :                                              \* X_j + d*G matches x_j + d
-          Add(KShare(p, S[pos]), d) = Add(KShare(p, S[pos]), d)
+     /\ Interp(Pick(KddIds, S), [pos \in 1..Len(S) |-> Add(KShare(p, S[pos]), d)], 0) = Add(p[1], d)
+                                                                            \* the adjusted public share points X_j + d*G
+                                                                            \* interpolate (in the exponent) to the child key
      /\ \A pos \in 1..Len(S) : d # 0 => KSum(p, S, d, pos) # Add(p[1], d)   \* one signer without the offset: a different key
+     /\ \A pos \in 1..Len(S) : d # 0 =>                                     \* one public share point without the offset:
+          Interp(Pick(KddIds, S), [j \in 1..Len(S) |-> Add(KShare(p, S[j]), IF j = pos THEN 0 ELSE d)], 0) # Add(p[1], d)
      /\ d # 0 => Add(p[1], d) # p[1]                                        \* the child key is not the parent key
 ASSUME KddConsistent
 
